@@ -553,6 +553,7 @@ func (tr *Tr) ghostFrames(f *Frame, c *Contract, args, binds []Val, rets []retRe
 			if !ok {
 				continue
 			}
+			allowed = tr.allowFreshKeys(allowed, fin, g)
 			f.cur = r.pp
 			f.addSite(g.Prop, "frame."+gn, "frame", "ghost "+gn+" unchanged except where `modifies` says", r.sig, sAnd(r.pp.R, sNot(sEq(fin, allowed))))
 		}
@@ -655,4 +656,16 @@ func (e *Engine) namedType(full string) types.Type {
 		}
 	}
 	return nil
+}
+
+// allowFreshKeys: ghost map entries keyed by objects this function allocated itself are not part of its frame.
+func (tr *Tr) allowFreshKeys(allowed, fin string, g *GhostDecl) string {
+	if !strings.HasPrefix(g.Sort, "map[ref]") && !strings.HasPrefix(g.Sort, "map[int]") {
+		return allowed
+	}
+	for i := 1; i <= tr.nalloc; i++ {
+		k := sInt(int64(-i))
+		allowed = sSto(allowed, k, sSel(fin, k))
+	}
+	return allowed
 }
